@@ -245,6 +245,28 @@ Definition dec_cfg (sa sr se sf : Z) : config :=
 Definition enc_vres (r : vres) : list Z := match r with VInvalid => [0] | VOk u e c m => [1; u; e; c; m] end.
 Definition enc_opt (o : option Z) : list Z := match o with None => [0] | Some u => [1; u] end.
 
+(* ------------------------------------------------------------------ histories *)
+(* One process answers a whole HISTORY of presentations: the same tokens again and again, at any
+   verifier or wrapper, at clock readings that may pass a token's own expiry between two
+   presentations, with any number of other tokens verified in between. The code keeps nothing
+   between two requests (VerifyJwt parses and checks the token every time), so the answer to a
+   presentation is a function of (clock reading, verifier, token) alone. Verifiers: 1 VerifyJwt(raw, true),
+   41/43 loginRequiredProcess (LoginRequiredJSON / LoginRequiredQuery), 42/44 loginRequiredPathProcess
+   (LoginRequiredPathJSON / LoginRequiredPathQuery), 6 GetTokenInfo with the token as caller and body. *)
+Definition present (now v : Z) (raw : option token) : list Z :=
+  if v =? 1 then enc_vres (verify_access now true raw)
+  else if (v =? 41) || (v =? 43) then [login_required now raw]
+  else if (v =? 42) || (v =? 44) then [login_required now raw]
+  else if v =? 6 then enc_opt (get_token_info now raw raw)
+  else [ST_BADCASE].
+Definition tok_at (toks : list (list Z)) (i : Z) : option token := dec_tok (nth (Z.to_nat i) toks []).
+(* steps: flat triples verifier, token index, clock reading *)
+Fixpoint history (toks : list (list Z)) (steps : list Z) : list (list Z) :=
+  match steps with
+  | v :: i :: now :: rest => present now v (tok_at toks i) :: history toks rest
+  | _ => []
+  end.
+
 Definition run_case (args : list (list Z)) : list Z :=
   match args with
   | [[1]; [now; chk]; t] => ST_OK :: enc_vres (verify_access now (negb (chk =? 0)) (dec_tok t))
@@ -266,5 +288,6 @@ Definition run_case (args : list (list Z)) : list Z :=
       ST_OK :: enc_opt (email_use_c (dec_cfg sa sr se sf) now (dec_tok a) path_user (dec_tok e) ctx (negb (adm =? 0)) (negb (allow =? 0)))
   | [[19]; [now; k; user; cli; eml; ctx]; [verifier; vctx]; [sa; sr; se; sf]] =>
       ST_OK :: present_issued (dec_cfg sa sr se sf) now (dec_key k) user cli eml ctx verifier vctx
+  | [21] :: steps :: toks => ST_OK :: concat (history toks steps)
   | _ => [ST_BADCASE]
   end.
